@@ -182,6 +182,13 @@ def _pure_claim(e):
     return True
 
 
+_STDERR_ALIASES = set()     # locals of the helper under inspection that are bound to sys.stderr (inert_helpers)
+
+
+def _is_stderr(e):
+    return U(e) == 'sys.stderr' or (isinstance(e, ast.Name) and e.id in _STDERR_ALIASES)
+
+
 def _stmt_inert(st_, ref_names=(), inert_calls=()):
     """A statement that cannot influence what the program computes or writes to stdout / files: messages on stderr built from
     pure values, assertions of pure claims, and tests / loops that guard nothing else; also a call of a new helper function that
@@ -192,7 +199,7 @@ def _stmt_inert(st_, ref_names=(), inert_calls=()):
         return True
     if isinstance(st_, ast.Expr) and isinstance(st_.value, ast.Call):
         c = st_.value
-        if isinstance(c.func, ast.Name) and c.func.id == 'print' and any(k.arg == 'file' and U(k.value) == 'sys.stderr' for k in c.keywords) \
+        if isinstance(c.func, ast.Name) and c.func.id == 'print' and any(k.arg == 'file' and _is_stderr(k.value) for k in c.keywords) \
                 and all(_obs_pure(a.value if isinstance(a, ast.Starred) else a) for a in c.args) and all(_obs_pure(k.value) for k in c.keywords):
             return True
         if isinstance(c.func, ast.Attribute) and c.func.attr in _LOG_METHODS and _is_ghost_logger(c.func.value) \
@@ -229,8 +236,31 @@ def inert_helpers(rel, module):
         if lname.rpartition('.')[2] in known:
             continue            # the name also means something else in the reference tree: a call by that name is not identified
         body = list(fn.body)
-        if body and all(_stmt_inert(b_) for b_ in body):
-            out.add(lname.rpartition('.')[2])
+        # `stream = sys.stderr` (bound once) names the diagnostic stream; `if <pure>: return` leaves early without a value
+        _STDERR_ALIASES.clear()
+        nstore = {}
+        for x in ast.walk(fn):
+            if isinstance(x, ast.Name) and isinstance(x.ctx, ast.Store):
+                nstore[x.id] = nstore.get(x.id, 0) + 1
+        for b_ in body:
+            if isinstance(b_, ast.Assign) and len(b_.targets) == 1 and isinstance(b_.targets[0], ast.Name) and U(b_.value) == 'sys.stderr' \
+                    and nstore.get(b_.targets[0].id) == 1:
+                _STDERR_ALIASES.add(b_.targets[0].id)
+
+        def ok_stmt(b_):
+            if isinstance(b_, ast.Assign) and len(b_.targets) == 1 and isinstance(b_.targets[0], ast.Name) and b_.targets[0].id in _STDERR_ALIASES:
+                return True
+            if isinstance(b_, ast.If) and not b_.orelse and _pure(b_.test) and len(b_.body) == 1 and isinstance(b_.body[0], ast.Return) \
+                    and b_.body[0].value is None:
+                return True
+            if isinstance(b_, ast.Return) and b_.value is None:
+                return True
+            return _stmt_inert(b_)
+        try:
+            if body and all(ok_stmt(b_) for b_ in body) and any(not (isinstance(b_, ast.Expr) and isinstance(b_.value, ast.Constant)) for b_ in body):
+                out.add(lname.rpartition('.')[2])
+        finally:
+            _STDERR_ALIASES.clear()
     return out
 
 
@@ -1365,6 +1395,19 @@ def drop_ghost_state(repo, refidents, refnames):
         return False
 
     def is_ghost_write(st, locs):
+        # a diagnostic record kept in a ghost LOCAL container: t.append(<observation-pure>), t[k] = v, t[k] += v
+        # (only for a local whose every binding is a NEW container - never an alias of existing state)
+        if isinstance(st, ast.Expr) and isinstance(st.value, ast.Call) and isinstance(st.value.func, ast.Attribute) \
+                and isinstance(st.value.func.value, ast.Name) and st.value.func.value.id in locs \
+                and st.value.func.value.id in own_containers \
+                and st.value.func.attr in ('append', 'extend', 'add', 'update', 'insert') and not st.value.keywords \
+                and all(_obs_pure(a) for a in st.value.args):
+            return True
+        if isinstance(st, (ast.Assign, ast.AugAssign)):
+            tg = st.targets[0] if isinstance(st, ast.Assign) and len(st.targets) == 1 else getattr(st, 'target', None)
+            if isinstance(tg, ast.Subscript) and isinstance(tg.value, ast.Name) and tg.value.id in locs and tg.value.id in own_containers \
+                    and _obs_pure(tg.slice) and _obs_pure(st.value):
+                return True
         if isinstance(st, ast.Assign):
             return all(ghost_target(t, locs) for t in st.targets) and _obs_pure(st.value)
         if isinstance(st, ast.AugAssign):
@@ -1381,6 +1424,30 @@ def drop_ghost_state(repo, refidents, refnames):
             return True
         return False
 
+    own_containers = set()
+
+    def new_containers_of(fn):
+        binds = {}
+        for n in ast.walk(fn):
+            if isinstance(n, ast.Assign):
+                for t in n.targets:
+                    for leaf in (t.elts if isinstance(t, (ast.Tuple, ast.List)) else [t]):
+                        if isinstance(leaf, ast.Name):
+                            v = n.value
+                            fresh = (isinstance(v, (ast.List, ast.Dict, ast.Set)) and not isinstance(t, (ast.Tuple, ast.List))) or \
+                                (isinstance(v, ast.Call) and U(v.func) in ('list', 'dict', 'set', 'collections.Counter', 'Counter',
+                                                                            'collections.defaultdict', 'defaultdict', 'collections.OrderedDict')
+                                 and not isinstance(t, (ast.Tuple, ast.List))
+                                 and all(isinstance(a, (ast.Name, ast.Constant)) and U(a) in ('int', 'list', 'float') for a in v.args))
+                            binds.setdefault(leaf.id, []).append(fresh)
+            elif isinstance(n, ast.Name) and isinstance(n.ctx, ast.Store):
+                pass
+        stores = {}
+        for n in ast.walk(fn):
+            if isinstance(n, ast.Name) and isinstance(n.ctx, (ast.Store, ast.Del)):
+                stores[n.id] = stores.get(n.id, 0) + 1
+        return {k for k, v in binds.items() if all(v) and stores.get(k) == len(v)}
+
     changed = True
     rounds = 0
     while changed and rounds < 10:
@@ -1392,6 +1459,8 @@ def drop_ghost_state(repo, refidents, refnames):
                 if not isinstance(fn, (ast.FunctionDef, ast.AsyncFunctionDef)):
                     continue
                 locs = cand_locals.get((rel, lname), set())
+                own_containers.clear()
+                own_containers.update(new_containers_of(fn))
                 fresh_repr = lname.rpartition('.')[2] in ('__repr__', '__str__') and (rel + '::' + lname) not in refnames
                 bad_locs = set()
 
@@ -1444,6 +1513,8 @@ def drop_ghost_state(repo, refidents, refnames):
             locs = cand_locals.get((rel, lname), set())
             if not locs and not cand_attrs:
                 continue
+            own_containers.clear()
+            own_containers.update(new_containers_of(fn))
 
             def strip(blk):
                 nonlocal removed, touched
@@ -3299,10 +3370,31 @@ def normalise_signatures(repo):
             must_be_passed = [c for c in cur_defaults if rename.get(c, c) not in want_defaulted]
             name = lname.rpartition('.')[2]
             if len(by_name.get(name, [])) != 1:
-                # a namesake exists elsewhere: only calls inside the defining module are re-bound, and only if unique there
-                if sum(1 for x in by_name[name] if x.startswith(rel + '::')) != 1:
+                # a namesake exists elsewhere: the calls that are re-bound are those of the defining module and of every module that
+                # imports the name FROM the defining module (`from .grammar_io import load_grammar`); the function must be unique there
+                if sum(1 for x in by_name[name] if x.startswith(rel + '::')) != 1 or '.' in lname:
                     continue
                 mods = [rel]
+                unresolved = False
+                for r2, m2 in repo.modules.items():
+                    if r2 == rel:
+                        continue
+                    for imp in ast.walk(m2.tree):
+                        if isinstance(imp, ast.ImportFrom) and any((al.asname or al.name) == name for al in imp.names):
+                            base_dir = os.path.dirname(r2)
+                            for _ in range(max(imp.level - 1, 0)):
+                                base_dir = os.path.dirname(base_dir)
+                            modpath = (imp.module or '').replace('.', '/')
+                            cands = [os.path.normpath(os.path.join(base_dir, modpath + '.py'))] if imp.level else \
+                                [modpath + '.py', os.path.normpath(os.path.join(base_dir, modpath + '.py'))]
+                            if rel in cands:
+                                if any(al.asname and al.name == name for al in imp.names):
+                                    unresolved = True       # imported under another name: calls are not found by `name`
+                                mods.append(r2)
+                        elif isinstance(imp, ast.Import) and any(al.name.replace('.', '/') + '.py' == rel for al in imp.names):
+                            unresolved = True               # `import pkg.mod` + attribute calls: not followed
+                if unresolved:
+                    continue
             else:
                 mods = list(repo.modules)
             # ---- call sites
